@@ -377,6 +377,62 @@ Fixpoint split_bar (t : str) : list str :=
 Definition pat_words (t : str) : list str :=
   if str_eqb t (bs "start"%bs) then START_WORDS else if str_eqb t (bs "stop"%bs) then STOP_WORDS else split_bar t.
 
+(* REPEATED frames in an rf tuple: starts / stops are dicts frame -> list of matches built once (cane.py:323-325) and the pairing
+   loop POPS from these lists (cane.py:344, 350), so a second pass over the same frame sees what the first pass left.
+   frame_loop_st is frame_loop returning also the lists that are left; orfs_frames_st threads them through the frames
+   (st holds the leftovers of the frames visited so far; an unvisited frame reads its full lists). *)
+Definition res3 := (result * (list Z * list Z))%type.
+Definition cons_res3 (keep : bool) (o : orf) (r : res3) : res3 := (cons_res keep o (fst r), snd r).
+Definition loop_body_st (rec : list Z -> list Z -> option Z -> res3) (need_stop : bool) (minlen L frame i1 : Z)
+           (starts' stops : list Z) (i2 : option Z) : res3 :=
+  if (match i2 with Some p => i1 <? p | None => false end)
+  then rec starts' stops i2
+  else
+    let '(i2', stops') :=
+      match next_stop i1 stops with
+      | Some (e, r) => (Some e, r)
+      | None => ((if need_stop then None else Some L), [])
+      end in
+    match i2' with
+    | None => (ROk [], (starts', stops'))
+    | Some e =>
+        match inds2orf i1 e frame L with
+        | None => (RAssert, (starts', stops'))
+        | Some o =>
+            cons_res3 (o_stop o - o_start o >=? minlen) o
+              (if e =? L then (ROk [], (starts', stops')) else rec starts' stops' (Some e))
+        end
+    end.
+Fixpoint frame_loop_st (fuel : nat) (ns : nstart) (need_stop : bool) (minlen L frame fs last : Z)
+         (starts stops : list Z) (i2 : option Z) : res3 :=
+  match fuel with
+  | O => (RFuel, (starts, stops))
+  | S fuel' =>
+      if negb (loop_cond ns starts i2) then (ROk [], (starts, stops)) else
+      if fst (choose_i1 ns fs starts i2) >=? last then (ROk [], (snd (choose_i1 ns fs starts i2), stops)) else
+      loop_body_st (frame_loop_st fuel' ns need_stop minlen L frame fs last) need_stop minlen L frame
+                   (fst (choose_i1 ns fs starts i2)) (snd (choose_i1 ns fs starts i2)) stops i2
+  end.
+Fixpoint lookup_st (f : Z) (st : list (Z * (list Z * list Z))) : option (list Z * list Z) :=
+  match st with
+  | [] => None
+  | (k, v) :: r => if k =? f then Some v else lookup_st f r
+  end.
+Definition frame_pass_st (g : str) (sw pw : list str) (ns : nstart) (need_stop : bool) (minlen : Z) (s : str)
+           (st : list (Z * (list Z * list Z))) (f : Z) : res3 :=
+  let ls := match lookup_st f st with Some p => p | None => (starts_x g sw s f, stops_x g pw s f) end in
+  let data := strand_data s f in
+  frame_loop_st (length (fst ls) + length (snd ls) + 1) ns need_stop minlen (Z.of_nat (length s)) f
+                (Z.of_nat (frame_start_g g data f)) (Z.of_nat (last_res_g g data)) (fst ls) (snd ls) None.
+Fixpoint orfs_frames_st (g : str) (sw pw : list str) (ns : nstart) (need_stop : bool) (minlen : Z) (s : str)
+         (st : list (Z * (list Z * list Z))) (frames : list Z) : result :=
+  match frames with
+  | [] => ROk []
+  | f :: r =>
+      let p := frame_pass_st g sw pw ns need_stop minlen s st f in
+      app_res (fst p) (orfs_frames_st g sw pw ns need_stop minlen s ((f, snd p) :: st) r)
+  end.
+
 (* every form of rf: the three names and ints / tuples of ints (rfspec; frames outside -3..2 find no codon, cane.py:236-238,
    and read the strand from their k-th residue); another string fails the assertion of match() (cane.py:205); one numpy
    integer or float (not an int instance) and None are not iterable: TypeError (set(rf) cane.py:236 / for frame in rf) *)
@@ -389,7 +445,7 @@ Definition find_orfs_any (gap : option str) (start stop : str) (rf : rfany) (ns 
   match rf with
   | RAbadstr => XErr (bs "AssertionError"%bs)
   | RAnpint _ | RAfloat | RAnone => XErr (bs "TypeError"%bs)
-  | RAspec r => xres (find_orfs_x (gap_set gap) (pat_words start) (pat_words stop) r ns need_stop minlen s)
+  | RAspec r => xres (orfs_frames_st (gap_set gap) (pat_words start) (pat_words stop) ns need_stop minlen s [] (frames_of r))
   end.
 
 (* specification side: is_orf s f a e -- on the strand read in frame f, (a, e) is an open reading frame of the default
@@ -464,8 +520,7 @@ Definition words_ok (g : str) (ws : list str) : bool := forallb (word_ok g) ws.
 Definition in_nt_x (c : byte) : bool := existsb (byte_eqb c) (bs "ACGTUN-._~*acgtun"%bs).
 Definition wf_C12x (gap : option str) (start stop : str) (rf : rfany) (ns : nstart) (need_stop : bool) (minlen : Z) (s : str) : bool :=
   gap_ok gap && words_ok (gap_set gap) (pat_words start) && words_ok (gap_set gap) (pat_words stop) &&
-  forallb in_nt_x s && (0 <=? minlen) &&
-  match rf with RAspec r => nodupz (frames_of r) | _ => true end.
+  forallb in_nt_x s && (0 <=? minlen).
 Definition val_of_xresult (r : xresult) : val :=
   match r with XOk l => VL (map val_of_orf l) | XErr e => VE e end.
 Definition run_C12x (gap : option str) (start stop : str) (rf : rfany) (ns : N) (need_stop : bool) (minlen : Z) (s : str) : val :=
